@@ -41,5 +41,6 @@ void engineCache(const std::vector<std::string> &, const std::vector<std::string
         } else {
             throw std::runtime_error("cache op: " + l);
         }
+        outLine(".");
     }
 }
